@@ -15,6 +15,8 @@ mod sim;
 mod simdemo;
 mod simop;
 mod c19;
+mod c13;
+mod scen;
 mod wirefmt;
 mod util;
 mod worker;
@@ -76,6 +78,7 @@ fn main() {
                     "C01" => c01::generate(&mut rng, &tier, &mut emit),
                     "C16" => c16::generate(&mut rng, &tier, &mut emit),
                     "C19" => c19::generate(&mut rng, &tier, &mut emit),
+                    "C13" => c13::generate(&mut rng, &tier, &mut emit),
                     _ => {
                         eprintln!("unknown property {}", prop);
                         std::process::exit(2);
